@@ -297,20 +297,45 @@ func checkC06(c *fw.Ctx) {
 			ins = append(ins, r)
 			continue
 		}
+		base := atomiseFacts(fw.DeepFacts(r.fr, r.at.Block()), rules, ignore)
 		for _, vr := range rows {
 			if _, isC := vr.Val.(*ssa.Const); isC {
 				continue // a zero value: not a server (the insertion is guarded against it or it is harmless)
 			}
+			// one term per path to the merge: the alternative's own condition is what all its
+			// (feasible) paths have in common among the atoms the table knows - the rest are the
+			// tests met on the way, which the other paths decide the other way
+			var common map[string]bool
 			for _, term := range vr.Cond {
-				var more []string
+				lits := map[string]bool{}
+				var atoms []string
 				for _, l := range term {
-					more = append(more, l.String())
+					if a := atomiseFacts([]string{l.String()}, rules, ignore); len(a) == 1 && !strings.HasPrefix(a[0], "OTHER:") {
+						lits[l.String()] = true
+						atoms = append(atoms, a[0])
+					}
 				}
-				if more == nil {
-					more = []string{}
+				if contradictoryAtoms(append(append([]string{}, base...), atoms...)) {
+					continue // asks for X and not X, or for two memberships at once: not a path
 				}
-				ins = append(ins, insertion{at: r.at, fr: r.fr, key: vr.Val, more: more})
+				if common == nil {
+					common = lits
+					continue
+				}
+				for l := range common {
+					if !lits[l] {
+						delete(common, l)
+					}
+				}
 			}
+			if common == nil {
+				continue // no feasible path carries this alternative
+			}
+			more := []string{}
+			for _, l := range fw.SortedKeys(common) {
+				more = append(more, l)
+			}
+			ins = append(ins, insertion{at: r.at, fr: r.fr, key: vr.Val, more: more})
 		}
 	}
 	for _, in := range ins {
@@ -339,6 +364,11 @@ func checkC06(c *fw.Ctx) {
 			kept = append(kept, f)
 		}
 		atomList := atomiseFacts(kept, rules, ignore)
+		// an alternative of a merged key comes with one term per path to the merge: a term that
+		// asks for X and not X, or for two different memberships at once, is not a path
+		if in.more != nil && contradictoryAtoms(atomList) {
+			continue
+		}
 		atoms := strings.Join(atomList, ",")
 		exp, known := want[cls]
 		construct := "required signer: " + cls
@@ -649,4 +679,18 @@ func multiErrSuccess(fn *ssa.Function, tail func(ssa.CallInstruction) bool) fw.S
 		}
 		return base(r, reach, removed)
 	}
+}
+
+// contradictoryAtoms: the set holds an atom and its negation, or two values of the membership.
+func contradictoryAtoms(atoms []string) bool {
+	set := map[string]bool{}
+	for _, a := range atoms {
+		set[a] = true
+	}
+	for a := range set {
+		if set["!"+a] {
+			return true
+		}
+	}
+	return set["JOIN"] && set["INVITE"]
 }
